@@ -1263,16 +1263,17 @@ func vfGenC16(r *vfRand, id int) *vfWorldCase {
 		}
 		a := vfAction{Kind: "callback", Browser: 0, AcceptJS: r.chance(1, 2), StateMode: vfPick(r, "own", "own", "garbage", "absent"), CodeMode: vfPick(r, "own", "garbage", "absent", "markup", "markup"),
 			Script: &vfTokenScript{Kind: vfPick(r, "ok", "invalid_grant", "html_error", "html_error_401", "server_error"), Spec: vfPlainTok(vfPick(r, "u@example.com", "u@evil.com"), 3600), NonceMode: vfPick(r, "", "other")}}
-		switch r.intn(5) {
-		case 0:
+		switch x := r.intn(16); {
+		case x < 4:
 			a.ErrParam, a.ErrDesc = "access_denied", m()
-		case 1:
+		case x < 8:
 			a.ErrParam = m()
-		case 2:
+		case x < 12:
 			a.ErrParam, a.ErrDesc = m(), m()
-		case 3: // the long, multi-line descriptions some providers send (several kilobytes, markup and quotes inside)
+		case x == 12: // the long, multi-line descriptions some providers send (several kilobytes, markup and quotes inside); rare: each
+			// byte of a client string is a term of the case handed to Coq
 			a.ErrParam = vfPick(r, "access_denied", "invalid_request", "server_error")
-			a.ErrDesc = strings.Repeat("AADSTS50011: The reply URL <b>\"x\"</b> specified in the request doesn't match & isn't 'registered'. Trace ID: 0f2d\r\n", 20+r.intn(80))
+			a.ErrDesc = strings.Repeat("AADSTS50011: The reply URL <b>\"x\"</b> specified in the request doesn't match & isn't 'registered'. Trace ID: 0f2d\r\n", 36+r.intn(12))
 		}
 		acts = append(acts, a)
 	}
@@ -1291,6 +1292,13 @@ func vfC16Gateway(kind string, js bool) *vfWorldCase {
 	acts := []vfAction{vfGated(0, 0, "/app", 1), {Kind: "authorize", Browser: 0},
 		{Kind: "callback", Browser: 0, AcceptJS: js, StateMode: "own", CodeMode: "markup", Script: &vfTokenScript{Kind: kind}}}
 	return &vfWorldCase{Kind: "corpus", Script: vfScript{Cfg: vfWorldCfg{EndSession: true, GraceSec: 60}, Browsers: 1, Actions: acts}}
+}
+
+// a provider error whose description is several kilobytes long (multi-line, markup and quotes inside), for both formats
+func vfC16Long(js bool) *vfWorldCase {
+	desc := strings.Repeat("AADSTS50011: The reply URL <b>\"x\"</b> specified in the request doesn't match & isn't 'registered'. Trace ID: 0f2d\r\n", 44)
+	return &vfWorldCase{Kind: "corpus", Script: vfScript{Cfg: vfWorldCfg{EndSession: true, GraceSec: 60}, Browsers: 1, Actions: []vfAction{
+		{Kind: "callback", Browser: 0, AcceptJS: js, ErrParam: "access_denied", ErrDesc: desc, CodeMode: "absent", StateMode: "absent"}}}}
 }
 
 func vfCorpusC16() []*vfWorldCase {
@@ -1315,7 +1323,7 @@ func vfCorpusC16() []*vfWorldCase {
 				{Kind: "callback", Browser: 0, AcceptJS: first, CodeMode: "garbage", StateMode: "garbage"}}}}
 	}
 	return []*vfWorldCase{mk(false), mk(true), stored, linked, both(false), both(true),
-		vfC16Gateway("html_error", true), vfC16Gateway("html_error", false), vfC16Gateway("html_error_401", true)}
+		vfC16Gateway("html_error", true), vfC16Gateway("html_error", false), vfC16Gateway("html_error_401", true), vfC16Long(true), vfC16Long(false)}
 }
 
 // ---------------------------------------------------------------- C17: bad client state
